@@ -280,7 +280,7 @@ theorem wp_flushLoop {A} (fuel : Nat) {Q : Unit → St → Prop} {e : Ep} {l : L
               flushLoop fuel) Q (e1, l1) := by
           intro e1 l1 sid hwe hfe hsid hprs
           have hi1 : i < e1.chans.length := by
-            obtain ⟨cs, dcs, q, tx, rfl, hl⟩ := hfe
+            obtain ⟨cs, dcs, q, tx, _, _, _, _, rfl, hl⟩ := hfe
             exact Nat.lt_of_lt_of_le hi hl
           split
           · simp only [wp_bind]
@@ -288,7 +288,7 @@ theorem wp_flushLoop {A} (fuel : Nat) {Q : Unit → St → Prop} {e : Ep} {l : L
             intro tx l' hw2
             refine ih hw2 ?_
             intro e' l'' hw3 hf
-            exact hq e' l'' hw3 (DataFrame.trans (DataFrame.trans hfe ⟨_, _, _, tx, rfl, Nat.le_refl _⟩) hf)
+            exact hq e' l'' hw3 (DataFrame.trans (DataFrame.trans hfe ⟨_, _, _, tx, _, _, _, _, rfl, Nat.le_refl _⟩) hf)
           · rename_i hne
             simp only [wp_bind, wp_getE]
             have hpr : ((match c.maxPacketLifeTime with
@@ -304,13 +304,13 @@ theorem wp_flushLoop {A} (fuel : Nat) {Q : Unit → St → Prop} {e : Ep} {l : L
             intro cs l'' hw3 hlen
             refine ih hw3 ?_
             intro e' l3 hw4 hf
-            refine hq e' l3 hw4 (DataFrame.trans (DataFrame.trans hfe ⟨cs, _, _, tx, rfl, ?_⟩) hf)
+            refine hq e' l3 hw4 (DataFrame.trans (DataFrame.trans hfe ⟨cs, _, _, tx, _, _, _, _, rfl, ?_⟩) hf)
             simp at hlen; omega
         cases hid : c.id with
         | some sid =>
           have hsidlt := h.ch.sid c (List.mem_of_getElem? hc) sid hid
           simp only [wp_pure, wp_bind]
-          refine hsend _ _ sid hw1 ⟨_, _, rest, _, rfl, Nat.le_refl _⟩ hsidlt ?_
+          refine hsend _ _ sid hw1 ⟨_, _, rest, _, _, _, _, _, rfl, Nat.le_refl _⟩ hsidlt ?_
           rcases hpr0 with h' | h' | ⟨s, hs, hu⟩
           · exact Or.inl h'
           · exact Or.inr (Or.inl h')
@@ -335,7 +335,7 @@ theorem wp_flushLoop {A} (fuel : Nat) {Q : Unit → St → Prop} {e : Ep} {l : L
             have hs01 : s1 = s0 := by rw [hs0] at hs1; exact (Option.some.inj hs1).symm
             subst hs01
             simp only [wp_pure, wp_bind, wp_modE, wp_chanSet, hpick]
-            refine hsend _ _ _ hw2 ⟨_, _, rest, _, rfl, by simp⟩ hslt ?_
+            refine hsend _ _ _ hw2 ⟨_, _, rest, _, _, _, _, _, rfl, by simp⟩ hslt ?_
             rcases hpr0 with h' | h' | ⟨s, hs, _⟩
             · exact Or.inl h'
             · exact Or.inr (Or.inl h')
